@@ -86,6 +86,59 @@ def mf_job(job):
     return out
 
 
+SX = np.array([[0, 1], [1, 0]], dtype=complex)
+SZ = np.diag([1.0 + 0j, -1.0])
+
+
+def estimate_job(job):
+    """(e) parameters estimated from the bath and a time-dependent system (guess_tempo_parameters, used by
+    tempo_compute / pt_tempo_compute when no parameters are given): the times at which the user's callables are
+    sampled follow the shift, so the estimate is the same (metamorphic, tau vs 0)."""
+    import warnings
+    import oqupy
+    tau, kind = job
+    out = []
+
+    def estimate(shift):
+        log = []
+
+        def ham(t):
+            log.append(t - shift)
+            u = t - shift
+            return (0.3 + 2.5 * np.exp(-(u - 0.4) ** 2 / 0.02)) * SX + 0.5 * np.cos(3 * u) * SZ
+
+        def rate(t):
+            u = t - shift
+            return 0.1 + 1.5 * u ** 2
+
+        def lop(t):
+            return SX + 1j * np.sin(t - shift) * SZ
+        corr = oqupy.PowerLawSD(alpha=0.1, zeta=1.0, cutoff=1.0, cutoff_type="exponential", temperature=0.0)
+        bath = oqupy.Bath(0.5 * SZ, corr)
+        if kind == "td":
+            system = oqupy.TimeDependentSystem(ham, gammas=[rate], lindblad_operators=[lop])
+        else:
+            system = oqupy.TimeDependentSystemWithField(lambda t, a: ham(t) + 0.1 * (a * SX).real)
+        del log[:]      # the constructors probe the callables at a fixed time (type checks): not part of the estimate
+        with warnings.catch_warnings():
+            warnings.simplefilter("ignore")
+            p = oqupy.guess_tempo_parameters(bath, shift + 0.0, shift + 1.0, system=system, tolerance=1e-2)
+        return p, sorted(log)
+    try:
+        p0, l0 = estimate(0.0)
+        p1, l1 = estimate(tau)
+    except Exception as ex:  # pylint: disable=broad-except
+        return [{"what": "exception", "detail": "%s: %s" % (type(ex).__name__, str(ex)[:160])}]
+    if len(l0) != len(l1) or (l0 and max(abs(a - b) for a, b in zip(l0, l1)) > 1e-9):
+        out.append({"what": "sampling-times-depend-on-origin", "n0": len(l0), "n1": len(l1),
+                    "first": [l0[:2], l1[:2]], "last": [l0[-1:], l1[-1:]]})
+    for attr in ("dt", "dkmax", "epsrel"):
+        a, b = getattr(p0, attr), getattr(p1, attr)
+        if not (a == b or (a is not None and b is not None and abs(a - b) <= 1e-9 * abs(a))):
+            out.append({"what": "estimated-parameter-depends-on-origin", "parameter": attr, "tau0": a, "tau": b})
+    return out
+
+
 def run(ctx):
     quick = ctx.tier == "quick"
     n = 3
@@ -160,9 +213,15 @@ def run(ctx):
         for x in mm:
             ctx.violation("C15:correlations:%s" % x["what"], "tau=%s specs=%s: %s" % (job["start"], job["case"]["specs"], x),
                           {"d": {"specs": job["case"]["specs"], "tau": job["start"]}})
+    # (e) estimated parameters
+    ejobs = [(tau, kind) for tau in taus if tau != 0 for kind in ("td", "field")]
+    for j, mm in zip(ejobs, core.pmap(estimate_job, ejobs)):
+        ctx.case({"part": "e", "tau": j[0], "system": j[1]}, nontrivial=True)
+        for x in mm:
+            ctx.violation("C15:estimate:%s" % x["what"], "tau=%s %s: %s" % (j[0], j[1], x), {"e": list(j)})
     ctx.rule = ("shifts tau in {0, 1.0, -0.3, 0.37 dt} x (a) Influence.tla behaviours with time-dependent Hamiltonians through "
                 "Tempo and PtTempo+compute_dynamics, (b) mean-field methods, (c) float control schedules, (d) float correlation "
-                "time specifications; non-trivial = tau != 0")
+                "time specifications, (e) parameters estimated from a time-dependent system; non-trivial = tau != 0")
     ctx.exhaustive = False
     ctx.assumptions += ["(b) is metamorphic (tau vs 0) with tolerance 1e-9; (a), (c), (d) compare with the start-free specification"]
 
@@ -176,6 +235,8 @@ def replay(ctx, rep):
         mm = mf_job(tuple(c["b"]))
     elif "c" in c:
         mm = eng.run_case(c["c"])
+    elif "e" in c:
+        mm = estimate_job(tuple(c["e"]))
     else:
         raise core.MachineryError("rerun the check for correlation cases (value tables come from TLC)")
     ctx.case({"replay": True})
